@@ -39,6 +39,11 @@ abbrev Key := Edge × Layer
 abbrev Meta := List (Nat × Nat)
 abbrev HMeta := List (Nat × Nat)
 
+/-- `del d[k]`: drop the entry with key `k` (dict keys are unique; written as a filter so that no
+duplicate-freeness hypothesis is needed to reason about it) -/
+def del {α β : Type} [DecidableEq α] (l : List (α × β)) (k : α) : List (α × β) :=
+  l.filter (fun p => p.1 ≠ k)
+
 /-- Python's weight `1` in quanta of 1/4 -/
 def one : Int := 4
 
@@ -196,8 +201,8 @@ def unlinkNodes (adj : List (Node × List Nat)) (id : Nat) : List Node → List 
 
 /-- body of `remove_edge` for a key known to have id `id` -/
 def removeKey (s : Store) (k : Key) (id : Nat) : Store :=
-  { s with rev := AL.erase s.rev id, weights := AL.erase s.weights id, emeta := AL.erase s.emeta id,
-           adj := unlinkNodes s.adj id k.1, edgeList := AL.erase s.edgeList k }
+  { s with rev := del s.rev id, weights := del s.weights id, emeta := del s.emeta id,
+           adj := unlinkNodes s.adj id k.1, edgeList := del s.edgeList k }
 
 /-- `remove_edge((nodes, layer))` after D15 -/
 def removeEdge (s : Store) (raw : List Node) (l : Layer) : Store × Out :=
@@ -230,7 +235,7 @@ def removeNode (s : Store) (n : Node) (keep : Bool) : Store × Out :=
   | none => (s, .rej)
   | some ids =>
     let s1 := ids.foldl (fun s id => if keep then shrinkRecord s n id else dropRecord s id) s
-    ({ s1 with adj := AL.erase s1.adj n, nmeta := AL.erase s1.nmeta n }, .ok)
+    ({ s1 with adj := del s1.adj n, nmeta := del s1.nmeta n }, .ok)
 
 /-! ## weights and metadata -/
 
@@ -258,7 +263,7 @@ def setAttrNode (s : Store) (n : Node) (k v : Nat) : Store × Out :=
 def delAttrNode (s : Store) (n : Node) (k : Nat) : Store × Out :=
   match AL.get? s.nmeta n with
   | none => (s, .rej)
-  | some md => if (AL.get? md k).isSome then ({ s with nmeta := AL.set s.nmeta n (AL.erase md k) }, .ok) else (s, .rej)
+  | some md => if (AL.get? md k).isSome then ({ s with nmeta := AL.set s.nmeta n (del md k) }, .ok) else (s, .rej)
 
 /-- `set_attr_to_edge_metadata(edge, layer, field, value)` after D14 -/
 def setAttrEdge (s : Store) (raw : List Node) (l : Layer) (k v : Nat) : Store × Out :=
@@ -276,7 +281,7 @@ def delAttrEdge (s : Store) (raw : List Node) (l : Layer) (k : Nat) : Store × O
   | some id =>
     match AL.get? s.emeta id with
     | none => (s, .rej)
-    | some md => if (AL.get? md k).isSome then ({ s with emeta := AL.set s.emeta id (AL.erase md k) }, .ok) else (s, .rej)
+    | some md => if (AL.get? md k).isSome then ({ s with emeta := AL.set s.emeta id (del md k) }, .ok) else (s, .rej)
 
 /-! ## operations and histories -/
 
